@@ -26,6 +26,7 @@ Justification classes and the theorem of `J2O.Props.C14` that carries each:
    identity-keyed is no site; `append_perm_invariant_refuted` documents the old loop)
 -/
 import J2O.Gen.C14
+import J2O.Gen.C14State
 
 namespace J2O.C14
 open J2O.Gen.C14
@@ -38,12 +39,7 @@ inductive Cls where
 def reviewed : List (Site × Cls) := [
   -- conversion_api.py
   (("conversion_api.py", "_activate_plugin_worlds", "for-registry", "PLUGIN_REGISTRY.values()", "plugin_instance", "25149e93449f"), .registryOrder),
-  (("conversion_api.py", "_iter_graph_values._queue", "id-call", "id(val)", "", "d61b77c2b091"), .keyOnly),
-  -- ir_builder.py
-  (("ir_builder.py", "IRBuilder._collect_nodes_from_result", "id-call", "id(node)", "", "7a6d1e0876bf"), .keyOnly),
   -- ir_optimizations.py
-  (("ir_optimizations.py", "_known_integer_scalar", "id-call", "id(value)", "", "143aacebd3af"), .keyOnly),
-  (("ir_optimizations.py", "_known_integer_value_bounds", "id-call", "id(value)", "", "143aacebd3af"), .keyOnly),
   -- Dropout pass: Not nodes without remaining uses are picked (uses are read before any removal), then removed
   (("ir_optimizations.py", "inline_dropout_training_mode_constants_ir", "for-set", "del_not_nodes", "not_node", "2e2012337c7e"), .commutingRemove),
   -- Add forests: input transposes without consumers in the snapshot `live_nodes` are picked, then removed
@@ -70,11 +66,6 @@ def reviewed : List (Site × Cls) := [
   (("ir_optimizations.py", "remove_redundant_transpose_pairs_ir", "for-set", "transpose_nodes", "t_node", "e8e67105a07d"), .commutingRemove),
   (("ir_optimizations.py", "remove_redundant_transpose_pairs_ir", "materialize-set-list", "list(output_transposes)", "", "20888ee41a6f"), .commutingRemove),
   (("ir_optimizations.py", "remove_redundant_transpose_pairs_ir", "materialize-set-list", "list(to_remove)", "", "24efa780bc34"), .commutingRemove),
-  -- optimizer_graph_utils.py
-  (("optimizer_graph_utils.py", "_consumer_nodes", "id-call", "id(c)", "", "27521993339a"), .keyOnly),
-  (("optimizer_graph_utils.py", "_consumer_nodes", "id-call", "id(node)", "", "4cc3577691d4"), .keyOnly),
-  (("optimizer_graph_utils.py", "_producer_node", "id-call", "id(node)", "", "4cc3577691d4"), .keyOnly),
-  (("optimizer_graph_utils.py", "_producer_node", "id-call", "id(prod)", "", "b3b904d8d8ad"), .keyOnly),
   -- plugin_system.py
   (("plugin_system.py", "FunctionPlugin._lower_and_call", "id-call", "id(callee)", "", "5233142390de"), .keyOnly),
   (("plugin_system.py", "FunctionPlugin._lower_and_call._capture_const", "hash-call", "hash(arr.tobytes())", "", "d04277e11de7"), .keyOnly),
@@ -83,14 +74,38 @@ def reviewed : List (Site × Cls) := [
   (("plugin_system.py", "_DynamicParamWrapper.__hash__", "hash-call", "hash(id(self.value))", "", "ab32ba9b7343"), .keyOnly),
   (("plugin_system.py", "_DynamicParamWrapper.__hash__", "id-call", "id(self.value)", "", "ab32ba9b7343"), .keyOnly),
   (("plugin_system.py", "_activate_full_plugin_worlds_for_body", "for-registry", "PLUGIN_REGISTRY.values()", "plugin", "0850c7643191"), .registryOrder),
-  (("plugin_system.py", "_iter_patch_specs", "for-registry", "PLUGIN_REGISTRY.values()", "plugin", "0ba9f9ce4121"), .registryOrder),
-  (("plugin_system.py", "list_registered_rng_traces", "materialize-set-sorted", "sorted(_RNG_TRACE_REGISTRY)", "", "1a66a87640f8"), .sorted)
+  (("plugin_system.py", "_iter_patch_specs", "for-registry", "PLUGIN_REGISTRY.values()", "plugin", "0ba9f9ce4121"), .registryOrder)
 ]
 
 def isReviewed (s : Site) : Bool := reviewed.any (fun r => r.1 == s)
 
-/-- Every iteration site / hash call found in the live sources is a reviewed one (same loop body). -/
-theorem sites_reviewed : ∀ s ∈ sites, isReviewed s = true := by decide +kernel
+/-- Justification classes the scanner may establish BY ITSELF with its dataflow check (round 2), and the theorem
+    that carries each:
+      sorted     `sorted_perm_invariant`      the enumeration goes through `sorted(..)` first
+      toset      `collect_perm_invariant`     the enumeration only feeds another set
+      reduction  `reduction_perm_invariant`   the enumeration only feeds any/all/len or a constant flag
+      keyonly    `hash_not_in_output`         the id()/hash() value is only a key / membership operand
+    Such a site needs no reviewed row: its loop body may be edited freely as long as the check still passes. -/
+def autoClasses : List String := ["sorted", "toset", "reduction", "keyonly"]
+
+def isAuto (s : Site) : Bool := auto.any (fun a => a.1 == s && autoClasses.contains a.2)
+
+/-- **Coverage, site side.** Every iteration site / hash call found in the live sources is either
+    auto-justified by the scanner's dataflow check or a reviewed one (same loop body) carrying a theorem
+    instance.  A NEW site whose order can reach the output (e.g. `for d in <set of str>: d2.setdefault(d, …)`)
+    is neither, and breaks this obligation with the site named by the harness. -/
+theorem sites_reviewed : ∀ s ∈ sites, (isAuto s || isReviewed s) = true := by decide +kernel
+
+/-- The scanner claims only justification classes that have a theorem. -/
+theorem auto_classes_known : ∀ a ∈ auto, a.2 ∈ autoClasses := by decide +kernel
+
+/-- **Coverage, review side.** An auto-justification never overrides a review that found the site
+    order-dependent: no auto-justified site is listed in a class outside the order-independent ones
+    (today every class is; the statement guards future refuted rows). -/
+theorem auto_consistent_with_review :
+    ∀ a ∈ auto, ∀ r ∈ reviewed, r.1 = a.1 →
+      r.2 ∈ [Cls.collect, .reduction, .sorted, .keyOnly, .commutingRemove, .commutingSubst, .commutingLocal,
+             .dictFill, .registryOrder] := by decide +kernel
 
 /-- All anchored files were present and scanned. -/
 theorem scan_complete : missingFiles = [] := by decide +kernel
@@ -101,5 +116,47 @@ theorem scan_complete : missingFiles = [] := by decide +kernel
 theorem no_reviewed_site_is_order_dependent :
     ∀ r ∈ reviewed, r.2 ∈ [Cls.commutingRemove, .commutingSubst, .commutingLocal, .collect, .reduction,
                             .dictFill, .sorted, .keyOnly, .registryOrder] := by decide +kernel
+
+/-! ## Process-wide state that survives a conversion (`J2O.Gen.C14State`, probed on every run) -/
+
+open J2O.Gen.C14State in
+/-- Behavioural classes of surviving state and the theorem of the state machine of each kind:
+      saturating   a container / cache / flag that changes only the FIRST time a request is seen and never
+                   again when the same requests are repeated (registries, memo tables, lazy imports):
+                   `memo_transparent`, `registry_order_irrelevant`, `fresh_context_independent`
+      instanceMap  weak map from `id(instance)` to the instance, written and read inside one conversion:
+                   `fresh_context_independent` (hypothesis `wellScoped`)
+      scratchVar   a ContextVar that failing conversions may leave filled but every successful conversion
+                   leaves at its initial value and whose value after round 2 equals the value after round 1
+                   (`_ONNX_FN_HITS`: cleared at the start of every conversion — `scratch_cleared_independent`;
+                   validated by the poison test of the harness)
+    A ContextVar with flag `dirty` / `net` (left changed by a conversion: the `_IN_FUNCTION_BUILD` leak of
+    C14-2/C14-4), a container with `r2`/`net` (a module-level counter or name table: accumulates history)
+    has no class — `contextvar_restored` is the theorem the code must satisfy for it. -/
+inductive StateCls where
+  | saturating | instanceMap | scratchVar
+  deriving DecidableEq, Repr
+
+open J2O.Gen.C14State in
+def classifyState (r : Row) : Option StateCls :=
+  if r.2.1 == "weakmap" then some .instanceMap
+  else if r.2.1 == "ctxvar" then
+    (if r.2.2.contains "dirty" || r.2.2.contains "net" then none else some .scratchVar)
+  else if ["map", "set", "list", "lru", "scalar", "weakset"].contains r.2.1 && r.2.2 == ["r1"] then some .saturating
+  else none
+
+/-- **State coverage.** Every piece of module-level / class-level state or ContextVar of jax2onnx that some
+    conversion of the probe changed falls in a class whose state machine has an independence theorem. -/
+theorem state_classified : ∀ r ∈ J2O.Gen.C14State.surviving, (classifyState r).isSome = true := by
+  decide +kernel
+
+/-- The probe really inventoried the process (non-vacuity of `state_classified`): state objects were found,
+    among them at least one ContextVar. -/
+theorem state_inventory_nonempty :
+    J2O.Gen.C14State.inventorySize > 100 ∧ J2O.Gen.C14State.ctxvars ≠ [] := by decide +kernel
+
+example : classifyState ("m:_IN_FUNCTION_BUILD", "ctxvar", ["dirty", "r1"]) = none ∧
+    classifyState ("m:_counters", "map", ["net", "r1", "r2"]) = none ∧
+    classifyState ("m:_CACHE", "map", ["r1"]) = some .saturating := by decide
 
 end J2O.C14
